@@ -19,6 +19,9 @@ pub mod token {
 
 pub uninterp spec fn lower(s: Seq<char>) -> Seq<char>;
 pub assume_specification [str::to_lowercase] (s: &str) -> (r: String) ensures r@ == lower(s@);
+/// ASCII-only case folding: NOT the folding the rest of the engine resolves names with (uninterpreted, unrelated to `lower`)
+pub uninterp spec fn ascii_ci_eq(a: Seq<char>, b: Seq<char>) -> bool;
+pub assume_specification [str::eq_ignore_ascii_case] (s: &str, o: &str) -> (r: bool) ensures r == ascii_ci_eq(s@, o@);
 /// `name.to_lowercase() == n.to_lowercase()` (String == String): equality of the texts
 #[verifier::external_body]
 pub fn shim_to_string(s: &str) -> (r: String) ensures r@ == s@ { s.to_string() }
